@@ -208,6 +208,7 @@ def run_instance(args):
 
     import signal
     budget = int(os.environ.get("VERIF_UNIT_BUDGET_S", "900" if opts.get("tier") == "thorough" else "420"))
+    budget = int(budget * solve.load_factor())      # wall-clock budget on a busy machine
 
     class _Budget(BaseException):
         pass
